@@ -19,11 +19,13 @@ VERIF = os.path.dirname(os.path.dirname(os.path.abspath(__file__)))
 # the tree under test: /repo's working tree; VERIF_REPO lets the seeded-change runner point at a scratch worktree instead
 REPO_SRC = os.path.join(os.environ.get("VERIF_REPO", "/repo"), "src")
 PY = os.path.join(VERIF, ".venv", "bin", "python")
+if not os.path.exists(PY):          # a snapshot of /verif (vp run) has no environment of its own: use /verif's overlay
+    PY = "/verif/.venv/bin/python"
 
 
 def ensure_env():
     if os.path.abspath(sys.executable) != PY or not os.path.exists(PY):
-        subprocess.run([os.path.join(VERIF, "bin", "ensure_env.sh")], check=True, stdout=sys.stderr)
+        subprocess.run(["/verif/bin/ensure_env.sh"], check=True, stdout=sys.stderr)
         os.execv(PY, [PY] + sys.argv)
 
 
